@@ -268,7 +268,33 @@ def run(ctx):
         if seen != len(part):
             raise core.MachineryError('Trace_YannyRead judged %d of %d texts' % (seen, len(part)))
     ctx.cov['parts']['writer_texts_judged'] = len(recs)
+    # ---- binding self-test: a falsified Canon must be reported by both comparisons ----------------
+    acc = [(t, c) for t, c, _ in texts if c is not None and not Y.compare(c, _read(ctx, t))]
+    rng.shuffle(acc)
+    Y.comparator_selftest(ctx, acc, lambda t: _read(ctx, t), 'written_documents')
+    tried = missed = 0
+    for k, (t, c) in enumerate(acc[:60]):
+        f = Y.falsify(c, k % 5)
+        if f is None:
+            continue
+        tried += 1
+        if not Y.compare_res(f, c):
+            missed += 1
+    ctx.cov['parts']['selftest_compare_res'] = {'falsified_expectations': tried, 'reported': tried - missed}
+    if missed or tried < 5:
+        raise core.MachineryError('compare_res self-test: %d of %d falsified values compared equal' % (missed, tried))
     ctx.exhaustive = True
+
+
+def _read(ctx, txt):
+    from pydl.pydlutils.yanny import yanny
+    path = os.path.join(ctx.scratch, 'selftest.par')
+    with open(path, 'w', newline='') as fh:
+        fh.write(txt)
+    try:
+        return yanny(path)
+    finally:
+        os.remove(path)
 
 
 def replay(ctx, case):
